@@ -152,11 +152,35 @@ func resRun(s *Summary, c *resCase, ctl resCtl, base string, nested bool) {
 	}
 }
 
+// sharedUses: Uses() hands out the SAME map on every call; registering the controller a second time (another router,
+// another base path) must attach the per-action middleware again
+type sharedUses struct{}
+
+var sharedUsesMap = map[string][]rux.HandlerFunc{"Index": {resMw("Index")}, "Show": {resMw("Show")}, "Delete": {resMw("Delete")}}
+
+func (*sharedUses) Index(c *rux.Context)               { c.WriteString("Index") }
+func (*sharedUses) Show(c *rux.Context)                { c.WriteString("Show") }
+func (*sharedUses) Delete(c *rux.Context)              { c.WriteString("Delete") }
+func (*sharedUses) Uses() map[string][]rux.HandlerFunc { return sharedUsesMap }
+
 type notStruct int
 
 func (notStruct) Index(c *rux.Context) {}
 
 func resFinish(s *Summary) {
+	for round := 1; round <= 2; round++ {
+		r := rux.New()
+		r.Resource("/", &sharedUses{})
+		for _, pr := range [][3]string{{"GET", "/shareduses", "mw:Index;Index"}, {"GET", "/shareduses/7", "mw:Show;Show"}, {"DELETE", "/shareduses/7", "mw:Delete;Delete"}} {
+			w := httptest.NewRecorder()
+			r.ServeHTTP(w, &http.Request{Method: pr[0], URL: &url.URL{Path: pr[1]}, Header: http.Header{}, Proto: "HTTP/1.1"})
+			s.Compared++
+			if w.Body.String() != pr[2] {
+				s.mismatch(map[string]any{"kind": "resource", "aspect": "probe", "what": fmt.Sprintf(
+					"registration #%d of a controller whose Uses() returns the same map each time: %s %s answered %q, expected %q", round, pr[0], pr[1], w.Body.String(), pr[2])}, nil)
+			}
+		}
+	}
 	// a non-pointer or non-struct controller is rejected
 	cases := []struct {
 		name string
